@@ -162,20 +162,23 @@ Proof.
     rewrite Hia. reflexivity.
 Qed.
 
-Lemma tied_sync_side : forall a b da db,
+(* general form: [a'] is ANY state whose slots are the join of a's with a message list [msgs] carrying the same set of
+   values as the pull list (one SetRaw of the list, or the chunked application of a reordered stream) *)
+Lemma tied_sync_side_gen : forall a b da db a' msgs,
   tied a da -> tied b db ->
-  tied (fst (set_raw FNone a (values_of (st_store b) (push_ids (st_index b) (st_index a))))) (da ++ db).
+  (forall v, In v msgs <-> In v (values_of (st_store b) (push_ids (st_index b) (st_index a)))) ->
+  inv a' -> (forall s, sm_get (st_store a') s = best s (sm_get (st_store a) s) msgs) ->
+  tied a' (da ++ db).
 Proof.
-  intros a b da db [Ha Hma] [Hb Hmb].
-  set (pull := values_of (st_store b) (push_ids (st_index b) (st_index a))).
-  assert (Hpok : batch_ok pull) by (apply values_of_ok, Hb).
-  split; [apply set_raw_none_inv; assumption|].
-  intros s. rewrite set_raw_get by assumption.
-  (* first: maximal w.r.t. da ++ pull; then widen pull to db *)
-  pose proof (best_maxi s _ da pull (Hma s)) as Hm.
-  set (r := best s (sm_get (st_store a) s) pull) in *.
-  assert (Hpull_db : forall v, In v pull -> In v db /\ valid v = true).
-  { intros v Hin. destruct (values_of_in _ _ _ Hin) as [k Hk]. specialize (Hmb k). rewrite Hk in Hmb.
+  intros a b da db a' msgs [Ha Hma] [Hb Hmb] Hset Hinv' Hget.
+  set (pull := values_of (st_store b) (push_ids (st_index b) (st_index a))) in *.
+  split; [exact Hinv'|].
+  intros s. rewrite Hget.
+  (* first: maximal w.r.t. da ++ msgs; then widen msgs to db *)
+  pose proof (best_maxi s _ da msgs (Hma s)) as Hm.
+  set (r := best s (sm_get (st_store a) s) msgs) in *.
+  assert (Hpull_db : forall v, In v msgs -> In v db /\ valid v = true).
+  { intros v Hin. apply Hset in Hin. destruct (values_of_in _ _ _ Hin) as [k Hk]. specialize (Hmb k). rewrite Hk in Hmb.
     cbn [maxi] in Hmb. destruct Hmb as (H1 & H2 & _). auto. }
   assert (Hdom : forall v, In v db -> valid v = true -> v_env v = s ->
             exists w, r = Some w /\ (v_ts v <= v_ts w)%Z).
@@ -183,12 +186,12 @@ Proof.
     destruct (sm_get (st_store b) s) as [wb|] eqn:Hgb; cbn [maxi] in Hmb; [|exfalso; apply (Hmb v Hin Hv He)].
     destruct Hmb as (_ & Hvb & Heb & Hbb). specialize (Hbb v Hin Hv He).
     destruct (pull_covers a b s wb Ha Hb Hgb) as [Hp|[wa [Hga Hle]]].
-    - unfold r, best. destruct (join_fold_ge_in (filter (fun v => valid v && (v_env v =? s)%N) pull)
+    - unfold r, best. destruct (join_fold_ge_in (filter (fun v => valid v && (v_env v =? s)%N) msgs)
                               (sm_get (st_store a) s) wb) as [w [Hw Hlew]].
-      { apply in_slot_filter; assumption. }
+      { apply in_slot_filter; [apply Hset; exact Hp | assumption | assumption]. }
       exists w. split; [exact Hw | lia].
     - unfold r, best. rewrite Hga.
-      destruct (join_fold_ge_cur (filter (fun v => valid v && (v_env v =? s)%N) pull) wa) as [w [Hw Hlew]].
+      destruct (join_fold_ge_cur (filter (fun v => valid v && (v_env v =? s)%N) msgs) wa) as [w [Hw Hlew]].
       exists w. split; [exact Hw | lia]. }
   destruct r as [w|] eqn:Er; cbn [maxi] in *.
   - destruct Hm as (Hin & Hv & He & Hb'). repeat split; [|exact Hv | exact He|].
@@ -200,6 +203,34 @@ Proof.
   - intros v Hvin Hvv Hve. apply in_app_or in Hvin. destruct Hvin as [Hvin|Hvin].
     + apply (Hm v); [apply in_or_app; left; exact Hvin | exact Hvv | exact Hve].
     + destruct (Hdom v Hvin Hvv Hve) as [w' [Hw' _]]. discriminate.
+Qed.
+
+Lemma tied_sync_side : forall a b da db,
+  tied a da -> tied b db ->
+  tied (fst (set_raw FNone a (values_of (st_store b) (push_ids (st_index b) (st_index a))))) (da ++ db).
+Proof.
+  intros a b da db Ha Hb.
+  assert (Hpok : batch_ok (values_of (st_store b) (push_ids (st_index b) (st_index a))))
+    by (apply values_of_ok, Hb).
+  apply (tied_sync_side_gen a b da db _ (values_of (st_store b) (push_ids (st_index b) (st_index a)))); try assumption.
+  - intros v. tauto.
+  - apply set_raw_none_inv; [apply Ha | exact Hpok].
+  - intros s. apply set_raw_get; [apply Ha | exact Hpok].
+Qed.
+
+(* the initiator's side of the STREAMED exchange: newest-first order, chunks of any size *)
+Lemma tied_sync_side_stream : forall n a b da db,
+  tied a da -> tied b db ->
+  tied (stream_apply n a [] (values_of (st_store b)
+          (newest_first (st_index b) (push_ids (st_index b) (st_index a))))) (da ++ db).
+Proof.
+  intros n a b da db Ha Hb.
+  set (msgs := values_of (st_store b) (newest_first (st_index b) (push_ids (st_index b) (st_index a)))).
+  assert (Hmok : batch_ok ([] ++ msgs)) by (apply values_of_ok, Hb).
+  apply (tied_sync_side_gen a b da db _ msgs); try assumption.
+  - intros v. apply values_of_newest_first.
+  - apply stream_apply_inv; [apply Ha | exact Hmok].
+  - intros s. rewrite stream_apply_get; [reflexivity | apply Ha | exact Hmok].
 Qed.
 
 Lemma maxi_perm : forall d1 d2 s cur, (forall v, In v d1 <-> In v d2) -> maxi d1 s cur -> maxi d2 s cur.
@@ -219,7 +250,7 @@ Definition deliver (x : world * (list value * list value)) (o : op) : world * (l
   (w', match o with
        | OpRaw who _ b => if ok then (if who then (da, db ++ b) else (da ++ b, db)) else (da, db)
        | OpLocal who _ v => if ok then (if who then (da, db ++ [v]) else (da ++ [v], db)) else (da, db)
-       | OpSync _ => (da ++ db, da ++ db)
+       | OpSync _ | OpSyncStream _ _ => (da ++ db, da ++ db)
        end).
 
 Definition wtied (x : world * (list value * list value)) : Prop :=
@@ -228,7 +259,7 @@ Definition wtied (x : world * (list value * list value)) : Prop :=
 Lemma deliver_tied : forall x o, wtied x -> op_wf o -> wtied (deliver x o).
 Proof.
   intros [[a b] [da db]] o [Ha Hb] Hwf. cbn [fst snd] in Ha, Hb.
-  destruct o as [who f bt|who f v|who]; cbn [deliver step op_wf] in *.
+  destruct o as [who f bt|who f v|who|who n]; cbn [deliver step op_wf] in *.
   - destruct who; cbn [wget wset fst snd].
     + pose proof (tied_set_raw f b db bt Hb Hwf) as H. destruct (set_raw f b bt) as [s ok]. cbn [fst snd] in *.
       split; cbn [fst snd]; [destruct ok; exact Ha | destruct ok; exact H].
@@ -248,6 +279,18 @@ Proof.
         intros v. rewrite !in_app_iff. tauto.
     + split; cbn [fst snd].
       * pose proof (tied_sync_side a b da db Ha Hb) as H. exact H.
+      * pose proof (tied_sync_side b a db da Hb Ha) as [Hi Hm]. split; [exact Hi|].
+        intros s. apply (maxi_perm (db ++ da)); [|apply Hm].
+        intros v. rewrite !in_app_iff. tauto.
+  - unfold sync_exchange_stream. destruct who; cbn [wget wset negb fst snd].
+    + (* b initiates: b applies the stream, a applies the pushed values *)
+      split; cbn [fst snd].
+      * pose proof (tied_sync_side a b da db Ha Hb) as H. exact H.
+      * pose proof (tied_sync_side_stream n b a db da Hb Ha) as [Hi Hm]. split; [exact Hi|].
+        intros s. apply (maxi_perm (db ++ da)); [|apply Hm].
+        intros v. rewrite !in_app_iff. tauto.
+    + split; cbn [fst snd].
+      * pose proof (tied_sync_side_stream n a b da db Ha Hb) as H. exact H.
       * pose proof (tied_sync_side b a db da Hb Ha) as [Hi Hm]. split; [exact Hi|].
         intros s. apply (maxi_perm (db ++ da)); [|apply Hm].
         intros v. rewrite !in_app_iff. tauto.
@@ -344,4 +387,12 @@ Proof.
     apply (maxi_unique (stored a ++ stored b) s); [exact Hd | apply Ma|].
     apply (maxi_perm (stored b ++ stored a)); [|apply Mb]. intros v. rewrite !in_app_iff. tauto. }
   destruct a' as [s1 i1], b' as [s2 i2]. cbn [st_store st_index] in *. subst. reflexivity.
+Qed.
+
+(* the same for the exchange as it runs over the stream (newest-first, chunks of n): it IS the plain exchange *)
+Theorem sync_stream_equalises : forall n a b,
+  inv a -> inv b -> distinct_ts (stored a ++ stored b) ->
+  let '(a', b') := sync_exchange_stream n a b in a' = b'.
+Proof.
+  intros n a b Ha Hb Hd. rewrite (sync_stream_eq n a b Ha Hb Hd). apply sync_equalises; assumption.
 Qed.
